@@ -4,6 +4,7 @@ package mb
 
 import (
 	"bytes"
+	"crypto/tls"
 	"fmt"
 	"io"
 	"net/textproto"
@@ -58,10 +59,13 @@ type Msg struct {
 	ToIgnore []string    `json:"toignore,omitempty"` // ToIgnoreInvalid(list)
 	SMIME    int         `json:"smime,omitempty"`    // 0 none, 1 RSA, 2 ECDSA
 	Inter    bool        `json:"inter,omitempty"`    // with intermediate certificate
-	NoDate   bool        `json:"nodate,omitempty"`   // let go-mail generate Date / Message-ID on first use
-	Charset  string      `json:"charset,omitempty"`
-	NoUA     bool        `json:"noua,omitempty"`
-	ReAdd    bool        `json:"readd,omitempty"` // files are added, removed with UnsetAll*, and added again
+	// SignAPI: 0 SignWithKeypair; 1..3 SignWithTLSCertificate with a chain of that many certificates (leaf; leaf +
+	// intermediate; leaf + intermediate + root) — Inter must be set for 2 and 3; 4 = chain of three with Leaf unset
+	SignAPI int    `json:"signapi,omitempty"`
+	NoDate  bool   `json:"nodate,omitempty"` // let go-mail generate Date / Message-ID on first use
+	Charset string `json:"charset,omitempty"`
+	NoUA    bool   `json:"noua,omitempty"`
+	ReAdd   bool   `json:"readd,omitempty"` // files are added, removed with UnsetAll*, and added again
 	// Recycle: history — the Msg object carried other content before: 1 = decoy content (headers, two body parts,
 	// an attachment, an embed), then Reset(), then the content of this spec; 2 = the decoy was also rendered once
 	// before the Reset (a Msg re-used in a loop)
@@ -312,7 +316,21 @@ func Build(s Msg, h *Hooks) (*mail.Msg, error) {
 		if !s.Inter {
 			inter = nil
 		}
-		note(m.SignWithKeypair(kp.PrivateKey, kp.Leaf, inter))
+		if s.SignAPI > 0 {
+			tc := tls.Certificate{Certificate: [][]byte{kp.Certificate[0]}, PrivateKey: kp.PrivateKey, Leaf: kp.Leaf}
+			if s.SignAPI >= 2 {
+				tc.Certificate = append(tc.Certificate, mat.InterCert.Raw)
+			}
+			if s.SignAPI >= 3 {
+				tc.Certificate = append(tc.Certificate, mat.CACert.Raw)
+			}
+			if s.SignAPI == 4 {
+				tc.Leaf = nil
+			}
+			note(m.SignWithTLSCertificate(&tc))
+		} else {
+			note(m.SignWithKeypair(kp.PrivateKey, kp.Leaf, inter))
+		}
 	}
 	return m, firstErr
 }
@@ -335,6 +353,9 @@ func (s Msg) Describe() string {
 	}
 	if s.SMIME != 0 {
 		fmt.Fprintf(&b, " smime=%d inter=%v", s.SMIME, s.Inter)
+		if s.SignAPI > 0 {
+			fmt.Fprintf(&b, " SignWithTLSCertificate(chain=%d)", s.SignAPI)
+		}
 	}
 	if s.Recycle != 0 {
 		fmt.Fprintf(&b, " recycled-msg=%d", s.Recycle)
